@@ -338,7 +338,9 @@ def confirm_livelock(r):
     if r.outcome != 'livelock':
         return r
     if r.chooser is not None:
-        again = Run(r.K, r.T, r.C0, r.fired, fallback=False, src_async=r.src_async)
+        # (the events fired so far, then the default environment: the watchdog cut the schedule short, so the
+        # recorded prefix alone would leave the run waiting for an environment that never answers - not a hang)
+        again = Run(r.K, r.T, r.C0, r.fired, fallback=True, src_async=r.src_async)
     else:
         again = Run(r.K, r.T, r.C0, r.script0, fallback=r.fallback, timed=r.timed0, src_async=r.src_async)
     again.watchdog_s = 20.0
